@@ -19,6 +19,10 @@ pub enum Class {
     BitFlip(usize),
     OtherSecret,
     OtherIp(String),
+    /// an address that is not the client's but looks like it (variant index): the IPv4 address
+    /// embedded in an IPv6 one (`::a.b.c.d`, `::ffff:0:a.b.c.d`, `64:ff9b::a.b.c.d`), a neighbour,
+    /// a textual prefix/extension, the low 32 bits of an IPv6 address as IPv4, ...
+    RelatedIp(usize),
     /// timestamp = now - age (negative = in the future)
     Aged(i64),
     /// correct tag over bytes that are not JSON
@@ -40,6 +44,7 @@ impl Class {
             Class::BitFlip(b) => if *b < 256 { "bitflip-tag".into() } else { "bitflip-body".into() },
             Class::OtherSecret => "other-secret".into(),
             Class::OtherIp(_) => "other-ip".into(),
+            Class::RelatedIp(_) => "related-ip".into(),
             Class::Aged(_) => "aged".into(),
             Class::SignedGarbage => "signed-garbage".into(),
             Class::SignedWrongShape(_) => "signed-wrong-shape".into(),
@@ -61,6 +66,56 @@ pub struct Case {
 }
 
 pub const WRONG_SHAPES: usize = 6;
+pub const RELATED_IPS: usize = 8;
+
+/// An address different from `ip` but related to it.
+pub fn related_ip(ip: std::net::IpAddr, variant: usize) -> std::net::IpAddr {
+    use std::net::{IpAddr, Ipv4Addr, Ipv6Addr};
+    let out = match ip {
+        IpAddr::V4(v4) => {
+            let o = v4.octets();
+            let embed = |hi: [u16; 6]| IpAddr::V6(Ipv6Addr::new(hi[0], hi[1], hi[2], hi[3], hi[4], hi[5], u16::from_be_bytes([o[0], o[1]]), u16::from_be_bytes([o[2], o[3]])));
+            match variant % RELATED_IPS {
+                0 => embed([0; 6]),                               // IPv4-compatible ::a.b.c.d
+                1 => embed([0, 0, 0, 0, 0xffff, 0]),              // ::ffff:0:a.b.c.d (translated)
+                2 => embed([0x64, 0xff9b, 0, 0, 0, 0]),           // NAT64 64:ff9b::a.b.c.d
+                3 => IpAddr::V4(Ipv4Addr::new(o[0], o[1], o[2], o[3] ^ 1)),
+                4 => IpAddr::V4(Ipv4Addr::new(o[0] ^ 0x80, o[1], o[2], o[3])),
+                5 => IpAddr::V4(Ipv4Addr::new(o[0], o[1], o[2], if o[3] < 25 { o[3] * 10 + 1 } else { o[3] / 10 })), // textual prefix / extension
+                6 => IpAddr::V4(Ipv4Addr::new(o[3], o[2], o[1], o[0])),
+                _ => embed([0x2002, 0, 0, 0, 0, 0]),
+            }
+        }
+        IpAddr::V6(v6) => {
+            let s = v6.segments();
+            let o = v6.octets();
+            match variant % RELATED_IPS {
+                0 => IpAddr::V4(Ipv4Addr::new(o[12], o[13], o[14], o[15])), // the low 32 bits as IPv4
+                1 => IpAddr::V6(Ipv6Addr::new(s[0], s[1], s[2], s[3], s[4], s[5], s[6], s[7] ^ 1)),
+                2 => IpAddr::V6(Ipv6Addr::new(s[0] ^ 0x8000, s[1], s[2], s[3], s[4], s[5], s[6], s[7])),
+                3 => IpAddr::V6(Ipv6Addr::new(s[0], s[1], s[2], s[3], s[4] ^ 1, s[5], s[6], s[7])),
+                4 => IpAddr::V6(Ipv6Addr::new(0, 0, 0, 0, 0, 0xffff, s[6], s[7])), // low 32 bits, IPv4-mapped
+                5 => IpAddr::V6(Ipv6Addr::new(0, 0, 0, 0, 0, 0, s[6], s[7])),      // low 32 bits, IPv4-compatible
+                6 => IpAddr::V6(Ipv6Addr::new(s[7], s[6], s[5], s[4], s[3], s[2], s[1], s[0])),
+                _ => IpAddr::V6(Ipv6Addr::new(s[0], s[1], s[2], s[3], 0, 0, 0, 0)), // the bare /64 prefix
+            }
+        }
+    };
+    // an IPv4-mapped IPv6 address and the IPv4 address it maps are the same host: never offered as "another IP"
+    let canonical = |a: IpAddr| match a {
+        IpAddr::V6(v6) => v6.to_ipv4_mapped().map(IpAddr::V4).unwrap_or(a),
+        a => a,
+    };
+    if canonical(out) == canonical(ip) {
+        // (palindromes, zero suffixes, mapped twins): fall back to something certainly different
+        match ip {
+            IpAddr::V4(v4) => IpAddr::V4(Ipv4Addr::from(u32::from(v4).wrapping_add(256))),
+            IpAddr::V6(v6) => IpAddr::V6(Ipv6Addr::from(u128::from(v6).wrapping_add(1 << 64))),
+        }
+    } else {
+        out
+    }
+}
 
 /// `sign_secret`: the secret the *issuer* used (the server's configured one for honest cookies).
 pub fn build(rng: &mut Rng, class: Class, sign_secret: &[u8], client_addr: &std::net::SocketAddr, expiry: u64, ident: &Ident, props: &[Prop]) -> Case {
@@ -89,6 +144,10 @@ pub fn build(rng: &mut Rng, class: Class, sign_secret: &[u8], client_addr: &std:
             (Some(sign_cookie(&other, &valid_body)), false)
         }
         Class::OtherIp(addr) => (Some(sign_cookie(sign_secret, &body_for(fresh_ts, addr))), false),
+        Class::RelatedIp(v) => {
+            let other = std::net::SocketAddr::new(related_ip(client_addr.ip(), *v), client_addr.port());
+            (Some(sign_cookie(sign_secret, &body_for(fresh_ts, &other.to_string()))), false)
+        }
         Class::Aged(a) => {
             age = *a;
             let ts = (now as i64 - a).max(0) as u64;
